@@ -78,6 +78,13 @@ UNS = {
     "P_TAB": "SHOW CREATE TABLE;", "P_DOT": "SELECT a FROM t.;", "P_COMMA": "SELECT f(a , ;", "P_SCHEMA": "SHOW CREATE SCHEMA;",
     "P_EXISTS": "SELECT 1 WHERE EXISTS;", "P_ALTER": "ALTER SESSION SET x;", "P_CHECK": "CHECK TABLE t;", "P_LIKE": "SELECT a LIKE b;",
     "P_SEQ": "DROP SEQUENCE q;",
+    # wave 8: statements the LEXER rejects (a symbol it does not know, an unpaired quote) - the statement is abandoned half-way, whatever
+    # it had switched on must not reach the next statement
+    "X_PAR": "CREATE VIEW v2 AS SELECT a FROM t1 WHERE (b ^ 2) > 100;", "X_ALT": "ALTER TABLE a1 ADD CONSTRAINT c9 CHECK (((p ^ 2.0) < 100.0));",
+    "X_IDX": "CREATE INDEX ix9 ON a1 ((p ^ 2));", "X_FUNC": "CREATE FUNCTION f2(n int) RETURNS int AS $$ SELECT 2^n $$ LANGUAGE sql;",
+    "X_TAB": "CREATE TABLE x9 (a int, b int DEFAULT a ^ 2);", "X_SEQ": "CREATE SEQUENCE q9 START 1 ^ 2;",
+    # the bare word CHECK with no parenthesised clause of its own (SSMS, MySQL)
+    "P_CHECK2": "ALTER TABLE a1 WITH CHECK CHECK CONSTRAINT fk1;", "P_CHECK3": "ALTER TABLE a1 DROP CHECK c1;",
 }
 ALL = {}
 ALL.update(GEN)
